@@ -74,7 +74,7 @@ async fn get_streams(
 async fn create_stream(
     State(state): State<Arc<AppState>>,
     Extension(identity): Extension<Identity>,
-    Json(command): Json<CreateStream>,
+    Json(mut command): Json<CreateStream>,
 ) -> Result<Json<StreamDetails>, CustomError> {
     command.validate()?;
 
@@ -93,6 +93,8 @@ async fn create_stream(
             )
         })?;
     let response = Json(mapper::map_stream(stream));
+    // The assigned ID is journalled, otherwise the replay would have to guess it again.
+    command.stream_id = Some(stream.stream_id);
 
     let system = system.downgrade();
     let stream_id = command.stream_id;
